@@ -11,6 +11,7 @@ import GoBT.Addr.Address
 import GoBT.Addr.Base58Lemmas
 import GoBT.Gen.Limits
 import GoBT.Script.WriteReviewLib
+import GoBT.Addr.ValidateConverse
 namespace GoBT.C15
 open GoBT GoBT.Addr
 
@@ -109,6 +110,17 @@ theorem address_round_trip (H : Hash) (hH : ∀ b, 4 ≤ (H b).length) (mainnet 
   have e20' : h.length ≤ 20 := by omega
   rw [List.take_append_of_le_length e20]
   exact List.take_of_length_le e20'
+
+/-- **Every derived address validates** (the converse of `validate_accepts_only_base58check`): for either network and
+    every 20-byte hash, the address the library derives is accepted by ValidateAddress — the 25-byte
+    accumulate-and-carry decoder returns the payload's value without overflow, the version and checksum tests pass and
+    the canonical re-encoding is the address itself (proof in GoBT/Addr/ValidateConverse.lean). -/
+theorem derived_address_validates (H : Hash) (hH : ∀ b, 4 ≤ (H b).length) (mainnet : Bool) (h : Bytes)
+    (hl : h.length = 20) : validA58 H (encodeAddress H mainnet h) = .ok () := by
+  unfold encodeAddress
+  cases mainnet
+  · exact validA58_b58check H hH verTest (Or.inr rfl) h hl
+  · exact validA58_b58check H hH verMain (Or.inl rfl) h hl
 
 /-- ✓gen — the address version bytes of address.go are the ones the model uses -/
 theorem version_bytes_match :
